@@ -45,11 +45,42 @@ def _env_refs_expr(e: ast.AST) -> bool:
 
 
 class UrlProblem(Problem):
-    def __init__(self, c: Ctx, f: Func) -> None:
-        self.c, self.f = c, f
+    def __init__(self, c: Ctx, f: Func, depth: int = 0) -> None:
+        self.c, self.f, self.depth = c, f, depth
 
     def entry_state(self) -> dict:
-        return {}
+        """A helper's parameters carry the class of the worst actual argument over its call sites (helpers only: functions
+        that are called directly from the rule modules, not dispatched rules)."""
+        env: dict = {}
+        if self.depth >= 2:
+            return env
+        callers = [cs for cs in self.c.cg.callers.get(self.f, []) if not cs.kind.startswith("dispatch:")]
+        if not callers or self.f in self.c.reg.by_func():
+            return env
+        params = [a.arg for a in self.f.node.args.posonlyargs + self.f.node.args.args + self.f.node.args.kwonlyargs]
+        for pn in params:
+            cls = None
+            for cs in callers:
+                arg = self.c.eff.arg_for_param(cs, self.f, pn)
+                if arg is None:
+                    cls = worst(cls, "Raw") if cls else "Raw"
+                    continue
+                g = cs.caller
+                prob = UrlProblem(self.c, g, self.depth + 1)
+                gcfg = self.c.cfg(g)
+                IN = solve(gcfg, prob, narrow_rounds=0)
+                k = None
+                for n in gcfg.owner(cs.node):
+                    st = IN.get(n.id)
+                    if st is None:
+                        continue
+                    x = prob.classify(arg, st)
+                    k = x if k is None else worst(k, x)
+                k = k or "Raw"
+                cls = k if cls is None else worst(cls, k)
+            if cls is not None and cls != "Raw":
+                env[pn] = cls
+        return env
 
     def join(self, a: dict, b: dict, at: Node) -> dict:
         out = dict(a)
